@@ -25,8 +25,13 @@ import hv
 from hv import Case
 
 SPEC = {
-    "lean_modules": ["Honeycomb.Props.C02", "Honeycomb.Props.C02b"],
-    "required_theorems": ["C02_step_preserves_WF", "C02_history_preserves_WF", "C02_step_preserves_Mirror",
+    "lean_modules": ["Honeycomb.Props.C02", "Honeycomb.Props.C02b", "Honeycomb.Props.C01Gen"],
+    # Gen/LinkCores.lean is re-translated from components/betas.rs before every build
+    "gen": ["cores"],
+    "required_theorems": [
+        # Props/C01Gen.lean: the translated *_core functions of betas.rs ARE the model's link cores (program equality)
+        "C01_gen_oneLinkCore", "C01_gen_twoLinkCore", "C01_gen_threeLinkCore", "C01_gen_oneUnlinkCore", "C01_gen_twoUnlinkCore",
+        "C01_gen_threeUnlinkCore","C02_step_preserves_WF", "C02_history_preserves_WF", "C02_step_preserves_Mirror",
                           "C02_history_preserves_WF_and_Mirror", "C02_refusal", "C02_refusal_sew",
                           "C02_three_link_checks_shape", "C02_refused_call_changes_nothing",
                           "C02_unused_is_nobodys_image", "C02_failed_call_changes_nothing",
